@@ -39,6 +39,29 @@ Fixpoint transform_depth_le (n : nat) (p : paint) {struct p} : bool :=
   | _ => true
   end.
 
+(* no PaintGlyph anywhere below (true of every fill nanoemoji emits) *)
+Fixpoint no_glyph (p : paint) {struct p} : bool :=
+  match p with
+  | PColrLayers ls => forallb no_glyph ls
+  | PGlyph _ _ => false
+  | PComposite _ s b => no_glyph s && no_glyph b
+  | PTransform _ q | PTranslate _ _ q | PScale _ _ q | PScaleAroundCenter _ _ _ q
+  | PScaleUniform _ q | PScaleUniformAroundCenter _ _ q | PRotate _ _ q
+  | PRotateAroundCenter _ _ _ q | PSkew _ _ q | PSkewAroundCenter _ _ _ q => no_glyph q
+  | _ => true
+  end.
+(* every PaintGlyph's fill is glyph-free (no nested clipping) *)
+Fixpoint simple_fills (p : paint) {struct p} : bool :=
+  match p with
+  | PColrLayers ls => forallb simple_fills ls
+  | PGlyph _ q => no_glyph q
+  | PComposite _ s b => simple_fills s && simple_fills b
+  | PTransform _ q | PTranslate _ _ q | PScale _ _ q | PScaleAroundCenter _ _ _ q
+  | PScaleUniform _ q | PScaleUniformAroundCenter _ _ q | PRotate _ _ q
+  | PRotateAroundCenter _ _ _ q | PSkew _ _ q | PSkewAroundCenter _ _ _ q => simple_fills q
+  | _ => true
+  end.
+
 (* what write_font._bounds feeds ControlBoundsPen: for each PaintGlyph context of
    breadth_first, the glyph's control points through the context transform (skipped
    when the transform almost-equals the identity) *)
